@@ -236,6 +236,18 @@ def measures_lattice(ctx):
         for k, t in enumerate(motions):
             P = t * Polygon(*[g.Point(x, y, 0) for x, y in vs])
             ctx.ensure("polygon-3d-area", abs(P.area - want) < 1e-6, witness=dict(vertices=vs, motion=k, got=float(P.area), want=want))
+            # area centroid of the embedded polygon = image of the planar area centroid, for every start vertex and both orientations (non-convex polygons included)
+            A2 = _shoelace2(vs)
+            cx = sum((vs[i][0] + vs[(i + 1) % len(vs)][0]) * (vs[i][0] * vs[(i + 1) % len(vs)][1] - vs[(i + 1) % len(vs)][0] * vs[i][1]) for i in range(len(vs))) / (3 * A2)
+            cy = sum((vs[i][1] + vs[(i + 1) % len(vs)][1]) * (vs[i][0] * vs[(i + 1) % len(vs)][1] - vs[(i + 1) % len(vs)][0] * vs[i][1]) for i in range(len(vs))) / (3 * A2)
+            wantc = (t * g.Point(cx, cy, 0)).normalized_array[:3]
+            for r in range(len(vs)):
+                for rev in (False, True):
+                    vv = vs[r:] + vs[:r]
+                    vv = vv[::-1] if rev else vv
+                    Q = t * Polygon(*[g.Point(x, y, 0) for x, y in vv])
+                    got = np.real(Q.centroid.normalized_array[:3])
+                    ctx.ensure("polygon-3d-centroid==image-of-the-area-centroid", np.allclose(got, wantc, atol=1e-6), witness=dict(vertices=vv, motion=k, got=got.tolist(), want=np.asarray(wantc).tolist()))
     for (a, b, c) in itertools.product((1, 2, 3.5), repeat=3):
         for o in [(0, 0, 0), (1, -2, 3), (-1, -1, -1), (0.5, 0, 2)]:
             O = g.Point(*o)
